@@ -965,7 +965,11 @@ func (g *gen) runMetadata() {
 		m := *t.TokenMetaData
 		t.TokenMetaData = &m
 		t.Value = big.NewInt(int64(1 + g.r.Intn(5)))
-		if g.r.Intn(3) > 0 {
+		switch g.r.Intn(5) {
+		case 0: // the same hash: the genuine one is accepted on top
+		case 1: // an EMPTY hash on the destination's entry is a different hash too
+			m.Hash = nil
+		default:
 			m.Hash = append([]byte("forged"), byte(g.r.Intn(256)))
 		}
 		b, err := t.Marshal()
